@@ -16,6 +16,7 @@ RULE = ("G-sim traces with 0/1/2/3/5 profiler steps, gaps of 0/1/7 between steps
         "steps and >= 1 event dropped by trimming and >= 1 device activity kept. Distinct = hash of files + configuration.")
 ASSUMPTIONS = ["well-formed regime (hv/wf.py); steps do not overlap; all ranks carry the same step set",
                "cuda_sync rows on stream -1 are not judged for their iteration number (the statement leaves their side open)"]
+FLOAT_KEYS = ["files"]          # fractional-time-unit workload class (hv/shard.py)
 PLAN = {"quick": {"shards": 16, "cases": 960, "timeout": 600}, "thorough": {"shards": 16, "cases": 10000, "timeout": 3000}}
 FLOORS = {"quick": {"distinct_nontrivial": 100, "rows_judged": 20000, "trimmed_loads": 200, "inc_last_loads": 150, "events_dropped": 2000,
                     "starts_at_step_boundary": 100, "add_iteration.post": 400},
